@@ -35,7 +35,8 @@ CHECKS["C01"] = dict(
     "CrossHair symbolic execution of the parser post-processing; witnesses replayed on the real parser", design="§0, §2 C01", engine="smt+crosshair")
 CHECKS["C06"] = dict(
     text=LEVEL_TEXT_B + "the MODEL_NAME terminal is the one produced by the real edit_terminals callback, for the published list and for "
-         "adversarial families of user-registered names; plus " + LEVEL_TEXT_A + " (acceptance of every name in 12 contexts, rejection of "
+         "adversarial families of user-registered names, and for a *symbolic* registered name of every length 1..6 (thorough 1..10) obtained by "
+         "running the real callback with a marker name and replacing the marker's literals in the produced regular expression by z3 integers; plus " + LEVEL_TEXT_A + " (acceptance of every name in 12 contexts, rejection of "
          "near-miss words).",
     note=NOTE_B, technique="SMT lexer lemmas (symbolic regex matcher over the real scanner order, incl. \\b and alternation order) per "
     "registered-name family; CrossHair on parse() for accept/reject; witnesses replayed on the real scanner and parser",
